@@ -2,7 +2,7 @@
 from __future__ import annotations
 
 from .. import lib
-from ..engine import bases, par, report
+from ..engine import bases, families, par, report
 from ..ref import iban as ri
 from ..ref import reg
 
@@ -11,7 +11,9 @@ RULE = ("per country x base BBAN: a residue-complete family (odometer over the c
         "the last positions, keeping one member per value of numeric(bban+country+'00') mod 97, "
         "all 97 values) ; for every member IBAN.from_bban(country, bban) and IBAN(country+dd+bban) "
         "for all 100 pairs dd. Oracle: from_bban yields the reference's digits (02..98), parses "
-        "back as valid; exactly the reference pair is accepted. Non-trivial/distinct = distinct "
+        "back as valid; exactly the reference pair is accepted. Plus 'special' conforming BBANs "
+        "(dictionary tokens, near-tokens, runs of zeros / nines at every admitted offset): assembly, "
+        "canonical pair, its neighbours and the three aliases. Non-trivial/distinct = distinct "
         "(country, dd, bban) texts other than the canonical one.")
 
 
@@ -101,6 +103,26 @@ def check_member(country: str, bban: str, between=None, via_object=False):
     return bad
 
 
+def check_member_light(country: str, bban: str):
+    """from_bban, the canonical pair, its two neighbours and the three aliases (7 parses)."""
+    bad = []
+    ref = ri.check_digits(country, bban)
+    case = {"kind": "c02", "country": country, "bban": bban}
+    kind, val = lib.outcome(lambda: str(lib.IBAN.from_bban(country, bban)))
+    if kind != "ok":
+        bad.append(("from_bban-fails-on-conforming-bban", {**case, "dd": None}, "IBAN with digits " + ref, (kind, val)))
+    elif val != country + ref + bban:
+        bad.append(("from_bban-wrong-digits", {**case, "dd": None}, country + ref + bban, val))
+    n = int(ref)
+    for dd in dict.fromkeys([ref, f"{(n + 1) % 100:02d}", f"{(n - 1) % 100:02d}", "00", "01", "99"]):
+        k, v = lib.iban_parse(country + dd + bban)
+        if (k == "ok") != (dd == ref):
+            sig = ("canonical-pair-rejected" if dd == ref else
+                   "alias-accepted" if dd in ("00", "01", "99") else "non-canonical-pair-accepted")
+            bad.append((sig, {**case, "dd": dd}, "accept" if dd == ref else "reject", (k, v)))
+    return bad
+
+
 def shard(args):
     if args[0] == "after-activity":
         return after_activity_shard(args)
@@ -151,6 +173,15 @@ def shard(args):
                 for d in range(100):
                     part.seen.add(hash((d, other, b)))
                 part.stat("cross_country_members")
+        if f == "distinct":
+            # 'special' conforming BBANs: dictionary tokens, near-tokens, long runs of zeros / nines
+            # at every offset the structure admits
+            for label, b, _ in families.special_bodies(c, base):
+                part["evals"] += 7
+                part.seen.add(hash(("special", b)))
+                part.stat("special_members")
+                for sig, case, exp, obs in check_member_light(country, b):
+                    part.violation(sig + f" [{label.split(':')[0]} body]", case, exp, obs)
         part.sample({"country": country, "filler": f, "members": fam[:3],
                      "digits": [ri.check_digits(country, b) for b in fam[:3]]})
         part.stat("families")
